@@ -57,7 +57,7 @@ def gen_case(rng, tier, i):
         if fm_ > 0:      # field list dominated by a negative field: the maximum field is the largest |field|
             spec['fields'] = [[-fm_, 0.0, 0.0], [0.0, 0.0, 0.0], [round(0.5 * fm_, 6), 0.0, 0.0]]
             info['negfields'] = True
-    case = dict(kind='random', spec=spec, info=info)
+    case = dict(kind='random', spec=spec, info=info, py=round(float(rng.uniform(-1, 1)), 3) or 0.5)
     if rng.random() < 0.25:
         # every paraxial quantity is queried once, THEN the lens is edited through the public setters and queried again:
         # the answers are those of the lens as it is now
@@ -296,6 +296,19 @@ def check_case(case, rec):
               np.concatenate([np.asarray(yo, float) / sc, np.asarray(uo, float)]),
               1e-9 + 1e3 * float(np.max(np.abs(np.asarray(yo, float) - np.asarray(yl, float)))) / sc,
               scale=1.0, alt=alt, flags=fl, msg='unit-height parallel ray vs ABCD')
-    rec.event('paraxial_quantities_compared', 19)
+    # the trace by normalised coordinates at zero field is the marginal ray scaled by the pupil coordinate (linear in the
+    # launch; both sides are the library's own returned rays, so the as-built models of marginal_ray() cancel)
+    py = case.get('py', 0.61)
+    try:
+        par.trace(0.0, py, wl)                         # records are left on the surfaces
+        yt, ut = np.ravel(lens.surface_group.y).astype(float), np.ravel(lens.surface_group.u).astype(float)
+    except Exception as e:
+        yt = ut = None
+        rec.check('normalised-trace', False, msg=f'Paraxial.trace(0, {py}) raised {type(e).__name__}: {e}')
+    if yt is not None and np.all(np.isfinite(ya)) and np.all(np.isfinite(ua)):
+        rec.close('normalised-trace', np.concatenate([yt[1:] / hs, ut[1:]]), np.concatenate([py * ya[1:] / hs, py * ua[1:]]),
+                  1e-9 + 1e3 * cond('ya') / hs, scale=1.0,
+                  msg=f'Paraxial.trace(Hy=0, Py={py}) is not Py x marginal_ray() at the surfaces')
+    rec.event('paraxial_quantities_compared', 20)
     rec.sample(dict(spec=spec, library=dict(f2=_scalar(par.f2()), EPL=_scalar(par.EPL()), XPL=_scalar(par.XPL())),
                     abcd=dict(f2=float(o64['f2']), EPL=float(o64['EPL']), XPL=float(o64['XPL']))))
